@@ -301,6 +301,18 @@ where
     }
 }
 
+/// Verification hook: run the private `ReadVersion` future on `io`.
+///
+/// Returns whether HTTP/2 was detected, and the rewound stream.
+#[cfg(feature = "verif-hooks")]
+pub async fn verif_read_version<I>(io: I) -> Result<(bool, Rewind<I>), io::Error>
+where
+    I: Read + Unpin,
+{
+    let (version, rewind) = ReadVersion::new(io).await?;
+    Ok((version == HttpProtocol::Http2, rewind))
+}
+
 #[cfg(test)]
 mod tests {
 
